@@ -67,7 +67,13 @@ Inductive case :=
       query arriving on an old connection and closes it, and answers on new
       connections.  Observed for [q]: what the caller got, connections
       accepted, number of queries the TCP server read, all of them equal to [q] *)
-| CStale (k : N) (q : N * N * N) (p1_ok : bool) (res : ores) (new_conns seen_n : N) (seen_same : bool).
+| CStale (k : N) (q : N * N * N) (p1_ok : bool) (res : ores) (new_conns seen_n : N) (seen_same : bool)
+  (** after [warm] ordinary exchanges on the upstream, a query whose first
+      [ignored] datagrams the UDP server does not answer; it answers the next
+      one (a re-send, about a second later each) with flag byte [b2] under the
+      id of the datagram it answers.  Observed: (id, checksum) of these
+      [ignored + 1] datagrams, and what the caller got *)
+| CResend (warm ignored : N) (q : N * N * N) (b2 : N) (dgrams : list (N * N)) (res : ores).
 
 (** ** Messages *)
 
@@ -200,6 +206,14 @@ Definition agree_stale (k : N) (q : N * N * N) (p1_ok : bool) (res : ores)
   p1_ok && seen_same && res_eqb r res && tcp_used tq
   && (new_conns =? te_conns (snd t)) && (seen_n =? N.of_nat (length (te_seen (snd t)))).
 
+Definition agree_resend (warm ignored : N) (q : N * N * N) (b2 : N) (dgrams : list (N * N)) (res : ores) : bool :=
+  let qb := timed_query q in
+  let sends := udp_sends qb warm (S (N.to_nat ignored)) in
+  let answered := last sends [] in
+  let udp := udp_exchange qb warm [timed_udp_reply answered b2] in
+  list_eqb pair_eqb (map (fun d => (get_id d, checksum d)) sends) dgrams
+  && res_eqb (fst (udp_with_fallback qb udp (fun q' => tcp_read_reply (timed_tcp_reply q')))) res.
+
 Definition agree (c : case) : bool :=
   match c with
   | CTrunc n seed b2 obs =>
@@ -215,6 +229,7 @@ Definition agree (c : case) : bool :=
   | CDelay d1 d2 deadline cid qn qseed b2 res => agree_delay d1 d2 deadline cid qn qseed b2 res
   | CAbandon a b dl_a delay dl_b res_a res_b => agree_abandon a b res_a res_b
   | CStale k q p1_ok res new_conns seen_n seen_same => agree_stale k q p1_ok res new_conns seen_n seen_same
+  | CResend warm ignored q b2 dgrams res => agree_resend warm ignored q b2 dgrams res
   end.
 
 (** ** spec: the property's own reading of the observation, on raw bytes
@@ -307,6 +322,12 @@ Definition spec (c : case) : bool :=
     if k <=? reuse_max_retry + 1 then
       is_rep res (raw_msg cid 132 128 1 (gen_bytes qn qseed ++ gen_bytes 4 cid)) && (new_conns =? 1)
     else true
+    (* a reply to a re-sent datagram is a reply to the query: TC => the TCP
+       answer, else that reply with the caller's id *)
+  | CResend warm ignored q b2 dgrams res =>
+    let '(cid, qn, qseed) := q in
+    if tc_of b2 then is_rep res (raw_msg cid 132 128 1 (gen_bytes qn qseed ++ gen_bytes 4 cid))
+    else is_rep res (raw_msg cid b2 128 0 (gen_bytes qn qseed))
   end.
 
 (** ** non-trivial: TC set somewhere, a flag byte other than the plain
@@ -328,4 +349,5 @@ Definition nontrivial (c : case) : bool :=
   | CDelay d1 d2 _ _ _ _ b2 _ => tc_of b2 && (0 <? d1 + d2)
   | CAbandon a b _ _ _ _ _ => negb (pair_eqb (fst a) (fst b))
   | CStale k _ _ _ _ _ _ => 0 <? k
+  | CResend _ ignored _ _ _ _ => 0 <? ignored
   end.
